@@ -113,5 +113,5 @@ SPEC = {
                     'mdpLP theorems assume no basis/reward/back-projection entry in (0, 1e-6] (such entries are skipped by checkEqualSmall); the driver tags cases that violate it',
                     'objective and feasibility tolerances 1e-7 (relative to 1+|value|); FactoredLP instances with coefficients below 1e-5 and a gap below 1e-5, weights above 1e6 or an lp_solve NUMFAILURE/ACCURACYERROR are skipped as ill-conditioned (lp_solve accuracy 5e-7)',
                     'when the library reports "no solution" the driver accepts only with a Farkas certificate of flat infeasibility checked by farkasOk (farkas_sound)'],
-    'trusted_base': ['GNU ld --wrap interception of add_constraint / set_obj / set_obj_fn / set_minim / set_maxim / set_unbounded / solve'],
+    'trusted_base': ['GNU ld --wrap interception of add_constraint / set_obj / set_obj_fn / set_minim / set_maxim / set_unbounded / solve / get_ptr_variables'],
 }
